@@ -78,6 +78,14 @@ CHECKS["C17"] = dict(
     note="documented dialects transcribed from doc comments; where the documentation is silent both POSIX and literal readings are accepted; -X parsing in internal/build not covered",
     design="5 C17")
 
+CHECKS["C20"] = dict(
+    engine="tlc+injected-tests+loopback-http",
+    technique="TLA+ extraction law (Extract/ExtractMachine: Confined, Faithful) with TLC-enumerated archives replayed into the real extractTarGz/extractZip/extractTarXz; PlusCal FetchLock (flock on inode vs path) model-checked, its counterexample staged on the real system calls; concurrent fetch stress against a loopback server",
+    text="TLC enumerates every archive of <=3 entries over names with '..', '.', empty and absolute segments, links and clashes, with the verdict the law demands per entry; each is built as tar.gz/zip/tar.xz and extracted by the real code under a watched parent directory (nothing may appear outside dest; benign archives must be reproduced byte for byte). "
+         "The lock/extract/rename protocol is model-checked (FetchLock) and exercised with 2-4 concurrent callers and injected download failures.",
+    note="entries whose handling the statement leaves open (links, '.', duplicates) are judged by confinement only; interleavings of the lock protocol are staged through the HTTP server rather than a hook",
+    design="5 C20")
+
 NOT_YET = {}
 
 props = [json.loads(l) for l in open(os.path.join(V, "properties.jsonl"))]
